@@ -1,0 +1,38 @@
+//go:build verif
+
+package protocol
+
+// Hooks for the /verif harness (build tag `verif` only): enumeration of the
+// registered APIs so that a harness can exercise ReadResponse on every
+// response type and version (property C17).
+
+// VerifApi describes one registered API.
+type VerifApi struct {
+	Key        ApiKey
+	MinVersion int16
+	MaxVersion int16
+	// NewResponse returns a new zero response message for the given version.
+	NewResponse func(version int16) Message
+}
+
+// VerifApis lists the APIs registered through Register (the packages must
+// have been imported by the caller).
+func VerifApis() []VerifApi {
+	var apis []VerifApi
+	for k := range apiTypes {
+		t := &apiTypes[k]
+		if len(t.requests) == 0 || len(t.responses) == 0 {
+			continue
+		}
+		min := t.minVersion()
+		apis = append(apis, VerifApi{
+			Key:        ApiKey(k),
+			MinVersion: min,
+			MaxVersion: t.maxVersion(),
+			NewResponse: func(version int16) Message {
+				return t.responses[version-min].new()
+			},
+		})
+	}
+	return apis
+}
